@@ -1,3 +1,4 @@
+mod alloc_count;
 mod bencode;
 mod common;
 mod http_sys;
@@ -5,6 +6,9 @@ mod props;
 mod seqmc;
 mod udp_sys;
 mod ws_sys;
+
+#[global_allocator]
+static GLOBAL: alloc_count::Counting = alloc_count::Counting;
 
 fn main() {
     let args = common::parse_args();
@@ -18,11 +22,13 @@ fn main() {
 fn dispatch(args: &common::Args) {
     match args.id.as_str() {
         "C01" => props::c01::main(args),
+        "C02" => props::c02::main(args),
         "C05" => props::c05::main(args),
         "C07" => props::c07::main(args),
         "C08" => props::c08::main(args),
         "C09" => props::c09::main(args),
         "C10" => props::c10::main(args),
+        "C12" => props::c12::main(args),
         "C13" => props::c13::main(args),
         "C14" => props::c14::main(args),
         "C15" => props::c15::main(args),
